@@ -16,17 +16,14 @@ Ltac Zify.zify_post_hook ::= Z.div_mod_to_equations.
 
 Local Opaque crc32c.
 
-Section E2M.
-Variable summ1 : N -> list N -> wm_sentry.
-Variable summN : bool -> list wm_sentry -> wm_sentry.
 
 (* jls_wr_open; p; the per-signal part of jls_wr_close (before the END chunk) *)
-Definition e2_pre_end (p : list wop) : wm_state :=
+Definition e2_pre_end (summ1 : N -> list N -> wm_sentry) (summN : bool -> list wm_sentry -> wm_sentry) (p : list wop) : wm_state :=
   fold_left (wm_close_signal summ1 summN) wm_signal_ids (fst (wm_steps summ1 summN wm_api_open p [])).
 
-Lemma e2_pre_end_reach : forall p, wmw_ststep wm_state0 (e2_pre_end p).
+Lemma e2_pre_end_reach : forall summ1 summN p, wmw_ststep wm_state0 (e2_pre_end summ1 summN p).
 Proof.
-  intro p. unfold e2_pre_end.
+  intros summ1 summN p. unfold e2_pre_end.
   eapply wmw_ststep_trans; [apply wmw_api_open_step|].
   eapply wmw_ststep_trans; [apply (wmw_steps_step summ1 summN p wm_api_open [])|].
   generalize (fst (wm_steps summ1 summN wm_api_open p [])). generalize wm_signal_ids.
@@ -40,6 +37,25 @@ Definition e2_end_hdr (lpl : N) : fm_chunk_header := wm_hdr_set_ppl (wm_mk_hdr 0
 Definition e2_close_tail (st1 : wm_state) : wm_state :=
   wm_st_set_base st1 (wm_b_set_raw (wm_core_wr_end (wm_st_base st1)) (wm_raw_close (wm_b_raw (wm_core_wr_end (wm_st_base st1))))).
 
+Lemma e2_tail_fault : forall st1, wm_st_fault (e2_close_tail st1) = wm_fault (wm_raw_close (wm_b_raw (wm_core_wr_end (wm_st_base st1)))).
+Proof. intro. reflexivity. Qed.
+Lemma e2_tail_log : forall st1, wm_st_log (e2_close_tail st1) = wm_rlog (wm_raw_close (wm_b_raw (wm_core_wr_end (wm_st_base st1)))).
+Proof. intro. reflexivity. Qed.
+
+Lemma e2_wr_end_eq : forall b1, wm_fault (wm_b_raw b1) = false ->
+  wm_b_raw b1 = wm_mk_raw (wm_fend (wm_b_raw b1)) (wm_fend (wm_b_raw b1)) (wm_fend (wm_b_raw b1)) (wm_hdr (wm_b_raw b1)) (wm_last_pl (wm_b_raw b1))
+                          (wm_disk (wm_b_raw b1)) (wm_rlog (wm_b_raw b1)) false ->
+  wm_b_raw (wm_core_wr_end b1) =
+  wm_mk_raw (wm_fend (wm_b_raw b1) + 32) (wm_fend (wm_b_raw b1) + 32) (wm_fend (wm_b_raw b1) + 32)
+            (wm_hdr_set_tag (e2_end_hdr (wm_last_pl (wm_b_raw b1))) JLS_TAG_INVALID) 0
+            ((wm_fend (wm_b_raw b1), e2_end_hdr (wm_last_pl (wm_b_raw b1))) :: wm_disk (wm_b_raw b1))
+            (WmWrite (wm_fend (wm_b_raw b1)) (fm_encode_chunk_header (e2_end_hdr (wm_last_pl (wm_b_raw b1)))) :: wm_rlog (wm_b_raw b1)) false.
+Proof.
+  intros b1 Hf Emk. unfold wm_core_wr_end. generalize dependent (wm_b_raw b1). intros r1 Hf Emk. rewrite Emk at 1.
+  rewrite (wmw_raw_wr_eq (wm_fend r1) (wm_hdr r1) (wm_last_pl r1) (wm_disk r1) (wm_rlog r1) (wm_mk_hdr 0 JLS_TAG_END 0 0) []) by discriminate.
+  reflexivity.
+Qed.
+
 Lemma e2_close_shape : forall st1, wmw_ststep wm_state0 st1 ->
   wm_st_fault (e2_close_tail st1) = false -> wmw_bounded (wm_st_log (e2_close_tail st1)) ->
   exists s1, wmw_stinv st1 s1 /\
@@ -49,30 +65,228 @@ Lemma e2_close_shape : forall st1, wmw_ststep wm_state0 st1 ->
       :: wm_st_log st1 /\
     wm_st_fault st1 = false.
 Proof.
-  intros st1 Hreach Hf Hb. unfold e2_close_tail, wm_st_fault, wm_st_log in *.
-  cbn [wm_st_set_base wm_st_base wm_b_set_raw wm_b_raw] in *.
-  set (b1 := wm_st_base st1) in *. set (r1 := wm_b_raw b1) in *.
-  assert (HgF : wmw_good (wm_raw_close (wm_b_raw (wm_core_wr_end b1)))) by (split; assumption).
+  intros st1 Hreach Hf Hb. rewrite e2_tail_fault in Hf. rewrite e2_tail_log in Hb |- *.
+  assert (HgF : wmw_good (wm_raw_close (wm_b_raw (wm_core_wr_end (wm_st_base st1))))) by (split; [exact Hf|exact Hb]).
   pose proof (wmw_good_close _ HgF) as HgE.
-  assert (Hg1 : wmw_good r1) by (eapply wmw_good_le; [apply (proj1 (wmw_core_wr_end_bstep b1))|exact HgE]).
+  assert (Hg1 : wmw_good (wm_b_raw (wm_st_base st1))) by (eapply wmw_good_le; [apply (proj1 (wmw_core_wr_end_bstep (wm_st_base st1)))|exact HgE]).
   destruct (wmw_reach_accepted st1 Hreach (proj1 Hg1) (proj2 Hg1)) as (s1 & Hinv).
   exists s1. split; [exact Hinv|].
-  pose proof Hinv as ((Hsim & _) & _). fold b1 r1 in Hsim.
+  pose proof Hinv as ((Hsim & _) & _).
   pose proof Hsim as (_ & _ & _ & _ & _ & _ & H32 & _).
   pose proof (wmw_sim_mk _ _ Hsim) as Emk. rewrite (proj1 Hg1) in Emk.
-  assert (Eend : wm_b_raw (wm_core_wr_end b1) =
-                 wm_mk_raw (wm_fend r1 + 32) (wm_fend r1 + 32) (wm_fend r1 + 32) (wm_hdr_set_tag (e2_end_hdr (wm_last_pl r1)) JLS_TAG_INVALID) 0
-                           ((wm_fend r1, e2_end_hdr (wm_last_pl r1)) :: wm_disk r1)
-                           (WmWrite (wm_fend r1) (fm_encode_chunk_header (e2_end_hdr (wm_last_pl r1))) :: wm_rlog r1) false).
-  { unfold wm_core_wr_end. fold r1. rewrite Emk at 1.
-    rewrite (wmw_raw_wr_eq (wm_fend r1) (wm_hdr r1) (wm_last_pl r1) (wm_disk r1) (wm_rlog r1) (wm_mk_hdr 0 JLS_TAG_END 0 0) []) by discriminate.
-    reflexivity. }
   split; [|exact (proj1 Hg1)].
-  rewrite Eend. rewrite wmw_raw_close_eq by lia. reflexivity.
+  unfold wm_st_log.
+  rewrite (e2_wr_end_eq (wm_st_base st1) (proj1 Hg1) Emk). rewrite wmw_raw_close_eq by lia. reflexivity.
 Qed.
 
-Lemma e2_run_full_tail : forall p, fst (wm_run_full summ1 summN p) = e2_close_tail (e2_pre_end p).
+Lemma e2_run_full_tail : forall summ1 summN p, fst (wm_run_full summ1 summN p) = e2_close_tail (e2_pre_end summ1 summN p).
 Proof.
-  intro p. unfold wm_run_full, e2_pre_end, e2_close_tail. destruct (wm_steps summ1 summN wm_api_open p []) as [st rcs]. reflexivity.
+  intros summ1 summN p. unfold wm_run_full, e2_pre_end, e2_close_tail. destruct (wm_steps summ1 summN wm_api_open p []) as [st rcs]. reflexivity.
 Qed.
-End E2M.
+
+Lemma e2_pre_end_trunc_first : forall summ1 summN p, e2_trunc_first (wm_st_log (e2_pre_end summ1 summN p)).
+Proof.
+  intros summ1 summN p. apply e2_sle_trunc_first. unfold e2_pre_end.
+  eapply e2_sle_trans; [apply e2_sle_open|]. eapply e2_sle_trans; [apply (e2_sle_steps summ1 summN p wm_api_open [])|].
+  generalize (fst (wm_steps summ1 summN wm_api_open p [])). generalize wm_signal_ids.
+  induction l as [|id l IH]; intro st0; cbn [fold_left]; [apply e2_sle_refl|].
+  eapply e2_sle_trans; [apply e2_sle_close_signal|apply IH].
+Qed.
+
+(* ---------------------------------------------------------------- the final file *)
+Definition e2_file (summ1 : N -> list N -> wm_sentry) (summN : bool -> list wm_sentry -> wm_sentry) (p : list wop) : list N := wo_file_after (wmw_evs (wm_st_log (fst (wm_run_full summ1 summN p)))).
+
+Lemma e2_fin_J : forall pre, wmw_ststep wm_state0 pre -> e2_trunc_first (wm_st_log (wmw_fin pre)) ->
+  wm_st_fault (wmw_fin pre) = false -> wmw_bounded (wm_st_log (wmw_fin pre)) ->
+  exists s sF,
+    wmw_stinv pre s /\
+    wo_run false wo_st0 0 (wmw_evs (wm_st_log (wmw_fin pre))) = inl sF /\
+    wo_exts sF = wo_exts s /\ wo_pending sF = WoIdle /\ wo_len sF = rf_len (wo_file_after (wmw_evs (wm_st_log (wmw_fin pre)))) /\
+    32 <= wo_len sF /\ wo_len sF < fm_two64 /\
+    e2_J sF (rf_scan (wm_st_log (wmw_fin pre))) (wo_file_after (wmw_evs (wm_st_log (wmw_fin pre)))).
+Proof.
+  intros pre Hreach Htr Hf' Hb'.
+  destruct (wmw_fin_accepted pre Hreach Hf' Hb') as (s & sF & Hinv & Hrun & Hstep).
+  pose proof Hinv as ((Hsim & _) & _).
+  pose proof Hsim as (_ & _ & _ & Hlen & _ & Hpend & H32 & H64 & _).
+  rewrite (wmw_step_fh s (wm_fend (wm_b_raw (wm_st_base pre))) Hlen ltac:(lia) H64 Hpend) in Hstep.
+  generalize dependent (wm_st_log (wmw_fin pre)). intros logF Htr Hb' Hrun.
+  set (a := wm_fend (wm_b_raw (wm_st_base pre))) in *. clearbody a.
+  assert (HsF : sF = wo_set s a WoIdle 0 0 0 1 (wo_exts s)) by congruence.
+  exists s, sF. split; [exact Hinv|]. split; [exact Hrun|].
+  pose proof (e2_log_J logF sF Hrun Htr) as HJ.
+  pose proof (wi_len _ _ (j_wo _ _ _ HJ)) as Hl.
+  rewrite HsF in Hl |- *. cbn [wo_set wo_exts wo_pending wo_len] in *.
+  split; [reflexivity|]. split; [reflexivity|]. split; [exact Hl|]. split; [exact H32|]. split; [exact H64|]. rewrite <- HsF. exact HJ.
+Qed.
+
+Theorem e2_final : forall summ1 summN p,
+  let stF := fst (wm_run_full summ1 summN p) in
+  wm_st_fault stF = false -> wmw_bounded (wm_st_log stF) ->
+  exists pre s sF,
+    stF = wmw_fin pre /\ wmw_stinv pre s /\
+    wo_run false wo_st0 0 (wmw_evs (wm_st_log stF)) = inl sF /\
+    wo_exts sF = wo_exts s /\ wo_pending sF = WoIdle /\ wo_len sF = rf_len (e2_file summ1 summN p) /\ 32 <= wo_len sF /\ wo_len sF < fm_two64 /\
+    e2_J sF (rf_scan (wm_st_log stF)) (e2_file summ1 summN p).
+Proof.
+  intros summ1 summN p stF Hf Hb. destruct (wmw_run_pre summ1 summN p) as [Hreach Heq].
+  pose proof (e2_run_trunc_first summ1 summN p) as Htr. unfold e2_file. subst stF.
+  generalize dependent (wmw_close_pre summ1 summN (fst (wm_steps summ1 summN wm_api_open p []))). intros pre Hreach Heq.
+  generalize dependent (fst (wm_run_full summ1 summN p)). intros stF Hf Hb Htr Heq. subst stF.
+  destruct (e2_fin_J pre Hreach Htr Hf Hb) as (s & sF & H).
+  exists pre, s, sF. split; [reflexivity|exact H].
+Qed.
+
+(* ---------------------------------------------------------------- the file header *)
+Lemma e2_evs_cons_file : forall e l, wo_file_after (wmw_evs (e :: l)) = wo_apply (wo_file_after (wmw_evs l)) (wmw_to_wo e).
+Proof. intros e l. rewrite wmw_evs_cons. unfold wo_file_after. rewrite fold_left_app. reflexivity. Qed.
+
+Lemma e2_fin_file_header : forall pre s, wmw_stinv pre s ->
+  let f := wo_file_after (wmw_evs (wm_st_log (wmw_fin pre))) in
+  fm_sub 0 32 f = wm_file_header_bytes (rf_len f) /\ rf_len f = wm_fend (wm_b_raw (wm_st_base pre)).
+Proof.
+  intros pre s Hinv f. subst f.
+  pose proof Hinv as ((Hsim & _) & _). pose proof Hsim as (Hrun & _ & _ & Hlen & _ & _ & H32 & _).
+  pose proof (wi_len _ _ (wo_run_tracks_chunks _ _ _ Hrun)) as Hl0.
+  unfold wmw_fin, wm_st_log. cbn [wm_st_set_base wm_st_base wm_b_set_raw wm_b_raw].
+  destruct (wmw_close_log (wm_b_raw (wm_st_base pre))) as [L _]. rewrite L. rewrite e2_evs_cons_file. cbn [wmw_to_wo wo_apply].
+  set (f0 := wo_file_after (wmw_evs (wm_rlog (wm_b_raw (wm_st_base pre))))) in *.
+  set (a := wm_fend (wm_b_raw (wm_st_base pre))) in *.
+  assert (Hfl : rf_len (wm_file_header_bytes a) = 32) by (unfold rf_len, wm_file_header_bytes; rewrite fm_encode_file_header_length; reflexivity).
+  assert (Hw : 0 + rf_len (wm_file_header_bytes a) <= rf_len f0) by (rewrite Hfl; unfold rf_len; lia).
+  rewrite e2_write_inpl by exact Hw.
+  assert (Hl' : rf_len (e2_inpl f0 0 (wm_file_header_bytes a)) = a) by (unfold rf_len; rewrite e2_inpl_length by exact Hw; lia).
+  rewrite Hl'. split; [|reflexivity].
+  rewrite <- Hfl at 1. apply e2_sub_inpl_at. exact Hw.
+Qed.
+
+(* ---------------------------------------------------------------- the END chunk *)
+Lemma e2_end_hdr_fields : forall lpl, lpl < 4294967296 ->
+  let b := fm_encode_chunk_header (e2_end_hdr lpl) in
+  length b = 32%nat /\ fm_tag (fm_ch_fields b) = JLS_TAG_END /\ fm_chunk_meta (fm_ch_fields b) = 0 /\ fm_payload_length (fm_ch_fields b) = 0.
+Proof.
+  intros lpl Hl b. subst b. split; [apply fm_encode_chunk_header_length|].
+  destruct (rf_fields_enc (e2_end_hdr lpl)) as (A & B & C); [reflexivity|reflexivity|reflexivity|].
+  cbv zeta in A, B, C. rewrite A, B, C. repeat split.
+Qed.
+
+(* the chunk view of the complete log = the chunk view before jls_core_wr_end, then the END chunk *)
+Theorem e2_close_tail_chunks : forall st1, wmw_ststep wm_state0 st1 -> e2_trunc_first (wm_st_log st1) ->
+  wm_st_fault (e2_close_tail st1) = false -> wmw_bounded (wm_st_log (e2_close_tail st1)) ->
+  rf_chunks (wm_st_log (e2_close_tail st1)) =
+  rf_chunks (wm_st_log st1) ++ [{| rc_off := wm_fend (wm_b_raw (wm_st_base st1)); rc_tag := JLS_TAG_END; rc_meta := 0; rc_pay := [] |}].
+Proof.
+  intros st1 Hreach Htr Hf Hb.
+  destruct (e2_close_shape st1 Hreach Hf Hb) as (s1 & Hinv & Hlog & Hf1).
+  pose proof Hinv as ((Hsim & _) & _). pose proof Hsim as (Hrun & _ & _ & Hlen & _ & Hpend & H32 & _ & Hlpl & _).
+  pose proof (e2_log_J _ _ Hrun Htr) as J. fold (wm_st_log st1) in J.
+  assert (Hpn : rp_pend (rf_scan (wm_st_log st1)) = None).
+  { eapply e2_pend_none; [exact J|]. intros h Hh. rewrite Hpend in Hh. discriminate. }
+  pose proof (j_end _ _ _ J) as Hend. rewrite Hlen in Hend.
+  set (a := wm_fend (wm_b_raw (wm_st_base st1))) in *.
+  destruct (e2_end_hdr_fields (wm_last_pl (wm_b_raw (wm_st_base st1))) Hlpl) as (Hb32 & Ht & Hm & Hp). cbv zeta in Hb32, Ht, Hm, Hp.
+  unfold rf_chunks. rewrite Hlog. rewrite 2 rf_scan_cons.
+  rewrite (rf_step_hdr _ a _ Hpn Hend ltac:(lia) Hb32). cbv zeta. rewrite Hp, Ht, Hm. cbn [N.eqb].
+  rewrite rf_step_skip; [|reflexivity|left; cbn [rp_end]; lia].
+  cbn [rp_out rev]. reflexivity.
+Qed.
+
+(* ---------------------------------------------------------------- TRACK_*_HEAD tables *)
+(* the head table of a track the writer holds, in the file *)
+Lemma e2_track_head : forall s q f id ty t, e2_J s q f -> wo_pending s = WoIdle ->
+  wmw_track (wo_exts s) id ty t -> wmw_head_off t <> 0 ->
+  exists h, e2_chunk_at f (wmw_head_off t) h (wm_head_payload (wm_tk_offsets t)) /\
+            fm_tag h = fm_track_tag ty JLS_TRACK_CHUNK_HEAD /\ fm_chunk_meta h = id.
+Proof.
+  intros s q f id ty t J Hidle (_ & Hty & _ & _ & _ & _ & _ & Hh) H0.
+  destruct (Hh H0) as (x & Hf & T1 & T2 & T3 & T4).
+  destruct (wo_find_some _ _ _ Hf) as [Hx Hxo].
+  assert (Ehd : fm_is_head_tag (fm_tag (wo_e_hdr x)) = true) by (rewrite T1; apply wmw_head_tag_is_head; exact Hty).
+  pose proof (e2_J_head s q f x J Hidle Hx Ehd) as C. rewrite Hxo, T4 in C.
+  exists (wo_e_hdr x). split; [exact C|]. split; assumption.
+Qed.
+
+(* ---------------------------------------------------------------- summary: the file of a program *)
+(* what layers 1 and 2 say about a file f and a chunk list cs *)
+Definition e2_chunk_ok (f : list N) (c : rf_chunk) : Prop :=
+  exists h p, e2_chunk_at f (rc_off c) h p /\ fm_tag h = rc_tag c /\ fm_chunk_meta h = rc_meta c /\
+              rf_len p = rf_len (rc_pay c) /\ (fm_is_head_tag (rc_tag c) = false -> p = rc_pay c).
+
+Definition e2_wf_file (f : list N) (cs : list rf_chunk) : Prop :=
+  fm_sub 0 32 f = wm_file_header_bytes (rf_len f) /\ 64 <= rf_len f /\ rf_len f < fm_two64 /\
+  e2_layout cs 32 (rf_len f) /\ Forall (e2_chunk_ok f) cs /\
+  exists cs0, cs = cs0 ++ [{| rc_off := rf_len f - 32; rc_tag := JLS_TAG_END; rc_meta := 0; rc_pay := [] |}].
+
+Definition e2_pre_close (st1 : wm_state) : wm_state := wm_st_set_base st1 (wm_core_wr_end (wm_st_base st1)).
+Lemma e2_close_tail_fin : forall st1, e2_close_tail st1 = wmw_fin (e2_pre_close st1).
+Proof. intro. reflexivity. Qed.
+Lemma e2_pre_close_reach : forall st1, wmw_ststep wm_state0 st1 -> wmw_ststep wm_state0 (e2_pre_close st1).
+Proof.
+  intros st1 H. eapply wmw_ststep_trans; [exact H|]. apply wmw_ststep_bstep; [reflexivity|]. apply wmw_core_wr_end_bstep.
+Qed.
+
+Lemma e2_model_file_gen : forall st1, wmw_ststep wm_state0 st1 ->
+  e2_trunc_first (wm_st_log st1) -> e2_trunc_first (wm_st_log (e2_close_tail st1)) ->
+  wm_st_fault (e2_close_tail st1) = false -> wmw_bounded (wm_st_log (e2_close_tail st1)) ->
+  let f := wo_file_after (wmw_evs (wm_st_log (e2_close_tail st1))) in
+  e2_wf_file f (rf_chunks (wm_st_log (e2_close_tail st1))) /\
+  (exists cs0, rf_chunks (wm_st_log (e2_close_tail st1)) = rf_chunks (wm_st_log st1) ++ cs0 /\ length cs0 = 1%nat) /\
+  forall g ty, In g (wm_st_sigs st1) -> ty < 4 -> wmw_head_off (wmw_tk g ty) <> 0 ->
+    exists h, e2_chunk_at f (wmw_head_off (wmw_tk g ty)) h (wm_head_payload (wm_tk_offsets (wmw_tk g ty))) /\
+              fm_tag h = fm_track_tag ty JLS_TRACK_CHUNK_HEAD /\ fm_chunk_meta h = wm_sig_id g.
+Proof.
+  intros st1 Hreach Htr1 HtrF Hf Hb f.
+  pose proof (e2_close_tail_chunks st1 Hreach Htr1 Hf Hb) as Hcs.
+  destruct (e2_close_shape st1 Hreach Hf Hb) as (s1 & Hinv1 & _ & _).
+  pose proof Hinv1 as ((Hsim1 & _) & _). pose proof Hsim1 as (_ & _ & _ & _ & _ & _ & H321 & _).
+  assert (Hsg : wm_st_sigs (e2_pre_close st1) = wm_st_sigs st1) by reflexivity.
+  pose proof (e2_close_tail_fin st1) as Efin.
+  pose proof (e2_pre_close_reach st1 Hreach) as HreachP.
+  generalize dependent (e2_pre_close st1). intros pre Hsg Efin HreachP.
+  subst f. generalize dependent (e2_close_tail st1). intros stF HtrF Hf Hb Hcs Efin. subst stF.
+  destruct (e2_fin_J pre HreachP HtrF Hf Hb) as (s & sF & Hinv & Hrun & Hex & Hidle & Hlen & H32 & H64 & J).
+  pose proof (e2_fin_file_header pre s Hinv) as (Hfh & Hfl).
+  set (f := wo_file_after (wmw_evs (wm_st_log (wmw_fin pre)))) in *.
+  pose proof (e2_J_layout _ _ _ J Hidle ltac:(lia)) as Hlay. fold (rf_chunks (wm_st_log (wmw_fin pre))) in Hlay.
+  assert (Hall : Forall (e2_chunk_ok f) (rf_chunks (wm_st_log (wmw_fin pre)))).
+  { apply Forall_forall. intros c Hc. unfold rf_chunks in Hc. apply in_rev in Hc.
+    destruct (e2_J_chunk _ _ _ c J Hidle Hc) as (x & _ & _ & _ & T1 & T2 & T3).
+    destruct (fm_is_head_tag (rc_tag c)) eqn:Eh.
+    - destruct T3 as (C & L). exists (wo_e_hdr x), (wo_e_table x).
+      split; [exact C|]. split; [exact T1|]. split; [exact T2|]. split; [exact L|]. intro K. rewrite Eh in K. discriminate K.
+    - exists (wo_e_hdr x), (rc_pay c). split; [exact T3|]. split; [exact T1|]. split; [exact T2|]. split; reflexivity. }
+  assert (Hoff : wm_fend (wm_b_raw (wm_st_base st1)) = rf_len f - 32 /\ 64 <= rf_len f).
+  { rewrite Hcs in Hlay. clear - Hlay H321.
+    assert (G : forall l a z c, e2_layout (l ++ [c]) a z -> z = rc_off c + fm_chunk_size (rf_len (rc_pay c))).
+    { induction l as [|x l IH]; intros a z c H; cbn [app] in H; inversion H; subst.
+      - match goal with K : e2_layout [] _ _ |- _ => inversion K; subst end. reflexivity.
+      - eapply IH; eassumption. }
+    apply G in Hlay. cbn [rc_off rc_pay] in Hlay. change (fm_chunk_size (rf_len [])) with 32 in Hlay. lia. }
+  destruct Hoff as (Hoff & H64').
+  split.
+  { unfold e2_wf_file. split; [exact Hfh|]. split; [exact H64'|]. split; [rewrite <- Hlen; exact H64|]. split; [exact Hlay|]. split; [exact Hall|].
+    eexists. rewrite Hcs, Hoff. reflexivity. }
+  split; [eexists; split; [exact Hcs|reflexivity]|].
+  intros g ty Hg Hty H0.
+  destruct Hinv as (_ & Hsigs). rewrite <- Hsg in Hg.
+  rewrite Forall_forall in Hsigs. pose proof (Hsigs g Hg ty Hty) as Htk. rewrite <- Hex in Htk.
+  exact (e2_track_head _ _ _ _ _ _ J Hidle Htk H0).
+Qed.
+
+Theorem e2_model_file : forall summ1 summN p,
+  let stF := fst (wm_run_full summ1 summN p) in
+  wm_st_fault stF = false -> wmw_bounded (wm_st_log stF) ->
+  let f := e2_file summ1 summN p in
+  e2_wf_file f (rf_chunks (wm_st_log stF)) /\
+  (exists cs0, rf_chunks (wm_st_log stF) = rf_chunks (wm_st_log (e2_pre_end summ1 summN p)) ++ cs0 /\ length cs0 = 1%nat) /\
+  forall g ty, In g (wm_st_sigs (e2_pre_end summ1 summN p)) -> ty < 4 -> wmw_head_off (wmw_tk g ty) <> 0 ->
+    exists h, e2_chunk_at f (wmw_head_off (wmw_tk g ty)) h (wm_head_payload (wm_tk_offsets (wmw_tk g ty))) /\
+              fm_tag h = fm_track_tag ty JLS_TRACK_CHUNK_HEAD /\ fm_chunk_meta h = wm_sig_id g.
+Proof.
+  intros summ1 summN p stF Hf Hb f. subst f stF. unfold e2_file.
+  pose proof (e2_run_trunc_first summ1 summN p) as HtrF.
+  rewrite (e2_run_full_tail summ1 summN p) in *.
+  pose proof (e2_pre_end_reach summ1 summN p) as Hreach. pose proof (e2_pre_end_trunc_first summ1 summN p) as Htr1.
+  generalize dependent (e2_pre_end summ1 summN p). intros st1 Hf Hb HtrF Hreach Htr1.
+  exact (e2_model_file_gen st1 Hreach Htr1 HtrF Hf Hb).
+Qed.
